@@ -10,6 +10,8 @@ package websockets
 
 // ---- message encoding of the shim protocol (C11) ----
 //@ func (*message).Serialize props(C11,C07)
+//@   local m recv 0 0
+//@   local version param 0 0
 //@   requires m != nil
 //@   assigns nothing
 //@   ensures[C11:text-as-json-string] m.Type == 1 ==> typeis(r0, "string") && ifaceStr(r0) == string(m.Data)
@@ -19,6 +21,9 @@ package websockets
 // SendClientMessage: a JSON string becomes a text message with those bytes, a one-element array a binary message
 // (raw in protocol 0, base64-decoded otherwise); exactly one message is queued per successful call, none on error.
 //@ func (*Connection).SendClientMessage props(C11,C12,C07)
+//@   local conn recv 0 0
+//@   local injectionEnabled param 0 1
+//@   local msg param 0 0
 //@   requires conn != nil && conn.clientMessages != nil && conn.done != nil
 //@   assigns jsonobjects
 //@   ghost sends int = 0
@@ -32,6 +37,8 @@ package websockets
 
 // ReadServerMessages: the reply is the serialisation, in receive order, of exactly the messages received in this call.
 //@ func (*Connection).ReadServerMessages props(C11,C12,C07)
+//@   local conn recv 0 0
+//@   local msgs var 0 0 [ ] interface { }
 //@   requires conn != nil && conn.serverMessages != nil
 //@   assigns nothing
 //@   ghost n int = 0
@@ -60,6 +67,10 @@ package websockets
 // injectWebsocketMessage: nothing to inject returns the message itself; otherwise only keys that are not yet present
 // under the injection path are added, with the injected values, and the message type is kept.
 //@ func injectWebsocketMessage props(C11,C07)
+//@   local currJSONComponent var 0 1 map [ string ] interface { }
+//@   local injectionPath param 0 1
+//@   local injectionValues param 0 2
+//@   local msg param 0 0
 //@   requires len(injectionPath) >= 1
 //@   assigns jsonobjects
 //@   loop 1
@@ -78,6 +89,7 @@ package websockets
 // Close: queues the websocket close frame and closes the client queue. Both operations are on a channel of a shared
 // connection (see the type clause): the safety obligations of the two statements are the known findings of C12.
 //@ func (*Connection).Close props(C12,C07)
+//@   local conn recv 0 0
 //@   requires conn != nil && conn.clientMessages != nil
 //@   assigns nothing
 //@   ghost queued int = 0
@@ -100,6 +112,13 @@ package websockets
 // open, inner handler (wrapped by the session handler): the only peer ever dialled is ws://<configured backend host>;
 // the client-supplied URL contributes path and query only (C13); the request headers are handed on as they are (C09).
 //@ func createShimChannel$1 props(C13,C12,C09,C07)
+//@   local conn define 0 0 NewConnection ( _ , _ . String ( ) , _ . Header , func ( _ error ) { } )
+//@   local connections var 0 0 sync . Map
+//@   local host param 1 1
+//@   local r param 0 1
+//@   local sessionID define 0 0 fmt . Sprintf ( "%d" , atomic . AddUint64 ( & _ , 1 ) )
+//@   local targetURL define 0 0 url . URL { Scheme : "ws" , Host : _ , Path : _ . URL . Path , RawPath : _ . URL . RawPath , RawQuery : _ . URL . RawQuery , }
+//@   local w param 0 0
 //@   at sessionID := fmt.Sprintf("%d", atomic.AddUint64(&sessionCount, 1))
 //@   requires w != nil && r != nil && r.URL != nil && r.Header != nil && rwWrites[w] == 0
 //@   ghost dials int = 0
@@ -123,6 +142,10 @@ package websockets
 
 // open, outer handler: the request URL is replaced by the parsed body and nothing else of the request changes.
 //@ func createShimChannel$2 props(C13,C12,C07)
+//@   local openWebsocketHandler define 0 0 _ ( http . HandlerFunc ( func ( _ http . ResponseWriter , _ * http . Request ) { } ) , _ )
+//@   local r param 0 1
+//@   local targetURL define 0 0 url . Parse ( string ( _ ) )
+//@   local w param 0 0
 //@   at targetURL, err := url.Parse(string(body))
 //@   requires w != nil && r != nil && r.Body != nil && r.Header != nil && rwWrites[w] == 0 && openWebsocketHandler != nil
 //@   ghost handed int = 0
@@ -134,6 +157,11 @@ package websockets
 
 // close: unknown session 400; otherwise the session is removed from the table, its connection closed, and 200 answered.
 //@ func createShimChannel$3 props(C12,C07)
+//@   local conn define 0 0 _ . ( * Connection )
+//@   local connections var 0 0 sync . Map
+//@   local msg var 0 0 sessionMessage
+//@   local r param 0 1
+//@   local w param 0 0
 //@   at conn.Close()
 //@   requires w != nil && r != nil && r.Body != nil && rwWrites[w] == 0
 //@   ghost found bool = false
@@ -156,6 +184,14 @@ package websockets
 
 // data: the messages of the request are handed to their sessions in array order, stopping at the first failure.
 //@ func createShimChannel$4 props(C11,C12,C07)
+//@   local conn define 0 1 _ . ( * Connection )
+//@   local connections var 0 0 sync . Map
+//@   local enableWebsocketInjection param 1 5
+//@   local injectedHeaders var 0 0 map [ string ] string
+//@   local msg range 1 0 _
+//@   local msgs var 0 0 [ ] sessionMessage
+//@   local r param 0 1
+//@   local w param 0 0
 //@   at var msgs []sessionMessage
 //@   requires w != nil && r != nil && r.Body != nil && r.Header != nil && rwWrites[w] == 0
 // sessions leave the table only through a close call or a poll that found the connection closed: a data call, whatever
@@ -185,6 +221,11 @@ package websockets
 
 // poll: unknown session 400; read error 400 and the session is dropped; timeout 408; otherwise 200 with the messages.
 //@ func createShimChannel$5 props(C12,C11,C07)
+//@   local conn define 0 2 _ . ( * Connection )
+//@   local connections var 0 0 sync . Map
+//@   local msg var 0 1 sessionMessage
+//@   local r param 0 1
+//@   local w param 0 0
 //@   at serverMsgs, err := conn.ReadServerMessages()
 //@   requires w != nil && r != nil && r.Body != nil && rwWrites[w] == 0
 //@   ghost found bool = false
@@ -214,6 +255,8 @@ package websockets
 // NewConnection: dials exactly the given URL with the given headers minus the websocket handshake fields; the relay
 // goroutines are verified as units of their own.
 //@ func NewConnection props(C13,C09,C11,C12,C07)
+//@   local header param 0 2
+//@   local targetURL param 0 1
 //@   requires header != nil
 //@   assigns nothing
 //@   go-opaque NewConnection$1
@@ -230,6 +273,8 @@ package websockets
 // (so a stripped Authorization stays stripped, C09).
 //@ pure wsName(k string) bool = k == "Upgrade" || k == "Connection" || k == "Sec-Websocket-Key" || k == "Sec-Websocket-Version" || k == "Sec-Websocket-Extensions"
 //@ func stripWSHeader props(C09,C07)
+//@   local header param 0 0
+//@   local result define 0 0 http . Header { }
 //@   assigns nothing
 //@   ensures[C09:nothing-added-nothing-else-dropped] r0 != nil && fresh(r0) && forall_str(k, in(k, r0) <==> (header != nil && in(k, header) && !wsName(k))) && forall_str(k, in(k, r0) ==> r0[k] == header[k])
 //@   loop 1
@@ -240,6 +285,10 @@ package websockets
 // Proxy: the shim endpoints are mounted only under the cleaned shim prefix; every other path goes to the wrapped
 // handler itself, unwrapped and unmodified (C13, second sentence).
 //@ func Proxy props(C13,C07)
+//@   local host param 0 2
+//@   local openWebsocketWrapper param 0 6
+//@   local shimPath param 0 3
+//@   local wrapped param 0 1
 //@   requires wrapped != nil && openWebsocketWrapper != nil
 //@   assigns nothing
 //@   ghost regs int = 0
@@ -257,6 +306,7 @@ package websockets
 //@   ensures[C13:root-goes-to-the-wrapped-handler] rootRegs == 1 && r1 == nil && r0 != nil
 
 //@ func createShimChannel props(C12,C13,C07)
+//@   local openWebsocketWrapper param 0 4
 //@   requires openWebsocketWrapper != nil
 //@   assigns nothing
 //@   ensures r0 != nil
@@ -265,6 +315,9 @@ package websockets
 // reader: every message read from the backend websocket is queued for the client unchanged (same type, same bytes -
 // the slice ReadMessage returned, which nobody else holds), in read order, exactly once.
 //@ func NewConnection$1 props(C11,C12,C07)
+//@   local ctx param 1 0
+//@   local serverConn define 0 0 websocket . DefaultDialer . Dial ( _ , stripWSHeader ( _ ) )
+//@   local serverMessages define 0 0 make ( chan * message , 10 )
 //@   at defer close(serverMessages)
 //@   requires serverConn != nil && serverMessages != nil && !closed(serverMessages) && ctx != nil
 //@   ghost reads int = 0
@@ -296,6 +349,9 @@ package websockets
 // writer: every non-nil message taken from the client queue is written to the backend with the same type and bytes,
 // in queue order; nil entries (placeholders for malformed input) are skipped and never dereferenced.
 //@ func NewConnection$2 props(C11,C12,C07)
+//@   local clientMessages define 0 1 make ( chan * message , 10 )
+//@   local ctx param 1 0
+//@   local serverConn define 0 0 websocket . DefaultDialer . Dial ( _ , stripWSHeader ( _ ) )
 //@   requires serverConn != nil && clientMessages != nil && ctx != nil
 //@   ghost cur *message = nil
 //@   ghost curOK bool = false
@@ -325,6 +381,10 @@ package websockets
 // "<head>") followed by the rest of the original body; closing it closes the original; only Content-Length is removed.
 //@ pure shimHTML(h ref) bool = contains(lower(hget(h, "Content-Type")), "html")
 //@ func ShimBody$1 props(C14,C07)
+//@   local buf define 0 0 make ( [ ] byte , 1024 )
+//@   local count define 0 0 _ . Read ( _ )
+//@   local resp param 0 0
+//@   local shimCode define 0 0 _ . String ( )
 //@   at if resp == nil || resp.Body == nil
 //@   requires resp != nil ==> (resp.Body != nil ==> resp.Header != nil)
 //@   ghost reads int = 0
@@ -352,6 +412,8 @@ package websockets
 //@   ensures[C14:spliced-body-is-not-announced-with-the-old-length] resp != nil && old(resp.Body) != nil && shimHTML(old(resp.Header)) && r0 == nil ==> !in("Content-Length", resp.Header)
 
 //@ func (*shimmedBody).Read props(C14,C07)
+//@   local p param 0 0
+//@   local sb recv 0 0
 //@   requires sb != nil && sb.reader != nil
 //@   ghost calls int = 0
 //@   call (io.Reader).Read
@@ -359,6 +421,7 @@ package websockets
 //@     do calls = calls + 1
 //@   ensures[C14:read-once] calls == 1
 //@ func (*shimmedBody).Close props(C14,C07)
+//@   local sb recv 0 0
 //@   requires sb != nil && sb.closer != nil
 //@   ghost calls int = 0
 //@   call (io.Closer).Close
@@ -369,6 +432,8 @@ package websockets
 // the closer goroutine: once the session's context is done (Close was called, or either relay failed) the backend
 // websocket is closed, exactly once (C12: closing a session closes the backend websocket)
 //@ func NewConnection$3 props(C12,C07)
+//@   local ctx param 1 0
+//@   local serverConn define 0 0 websocket . DefaultDialer . Dial ( _ , stripWSHeader ( _ ) )
 //@   at serverConn.Close()
 //@   requires serverConn != nil && ctx != nil
 //@   ghost closes int = 0
